@@ -108,6 +108,44 @@ def order_policy(cl, rng, n, replay):
                     return
 
 
+def many_recordings(cl, rng, n, replay):
+    """long lists (5 .. 48 recordings, two or three time steps interleaved at random): the selection made for the three policies is exactly the recordings the policy names,
+    as the same objects, in their original order (the selection routine called directly: no curve is computed, so long lists are cheap), and process() of such a list
+    returns one row per retained recording"""
+    import hvsrpy
+    from hvsrpy import processing as pr
+    for j in range(n):
+        L = int(rng.choice([5, 8, 12, 17, 24, 33, 48]))
+        steps = [DTS[i] for i in rng.choice(3, size=int(rng.integers(2, 4)), replace=False)]
+        dts = [steps[int(i)] for i in rng.integers(0, len(steps), L)]
+        if len(set(dts)) < 2:
+            dts[int(rng.integers(0, L))] = [d for d in steps if d != dts[0]][0]
+        recs = [rp.mk_record(*rp.gen_window(rng, N=int(rng.integers(20, 40)), dt=dt)) for dt in dts]
+        for policy in POLICIES:
+            s = _settings("traditional", policy)
+            given = list(recs)
+            try:
+                kept, table = pr.prepare_records_with_inconsistent_dt(given, s)
+            except Exception as ex:
+                cl.fail("hvsrpy.processing.prepare_records_with_inconsistent_dt", f"raised {type(ex).__name__}: {ex}", signature=f"many:{policy}:raise")
+                return
+            cl.case((L, tuple(dts), policy))
+            if len(given) != L or any(a is not b_ for a, b_ in zip(given, recs)):
+                cl.fail("hvsrpy.processing.prepare_records_with_inconsistent_dt", "the caller's list was changed", signature=f"many:{policy}:caller-list")
+                return
+            ok_sets = expected_kept(dts, policy)
+            if policy == "frequency_domain_resampling":
+                # all recordings, each exactly once (the routine may group them by time step: process() restores the order, checked by the other clause)
+                ok = len(kept) == L and sorted(id(k) for k in kept) == sorted(id(r) for r in recs)
+            else:
+                ok = any(len(kept) == len(ks) and all(k is recs[i] for k, i in zip(kept, ks)) for ks in ok_sets)
+            if not ok:
+                cl.fail("hvsrpy.processing.prepare_records_with_inconsistent_dt",
+                        f"policy {policy}, {L} recordings with time steps {dts}: the selection is not exactly the recordings the policy names, in their original order",
+                        signature=f"many:{policy}:selection", time_steps=dts, selected=[next((i for i, r in enumerate(recs) if r is k), -1) for k in kept], expected=ok_sets)
+                return
+
+
 def nyquist(cl, rng, n, replay):
     import hvsrpy
     kinds = ["traditional", "single_azimuth", "rotdpp", "azimuthal", "diffuse_field"]
@@ -151,6 +189,8 @@ CLAUSES = [
      "all arrangements of <=3 time steps over 1-4 recordings (non-involutive groupings first), 4 methods x 3 policies", "hvsrpy.processing.process", (150, 1500), order_policy),
     ("bounded:centre frequencies above the Nyquist of a processed recording are refused, others are not", "bounded",
      "11 arrangements x 6 top frequencies x 5 methods x 3 policies", "hvsrpy.processing.check_nyquist_frequency", (400, 990), nyquist),
+    ("bounded:long lists (5 .. 48 recordings, interleaved time steps): each policy selects exactly the recordings it names, as the same objects, in their original order", "bounded",
+     "list lengths 5 / 8 / 12 / 17 / 24 / 33 / 48, two or three time steps drawn per position, 3 policies", "hvsrpy.processing.prepare_records_with_inconsistent_dt", (60, 600), many_recordings),
 ]
 
 if __name__ == "__main__":
